@@ -5,10 +5,18 @@ Modelling decisions (trusted models, all listed as assumptions in the report):
   * `os.environ.get`, `os.path.basename/join`, `json.dumps`, `ContextVar`, `open/write` : pyvc/externals.py
   * `N(name, rec)` = spec function `norm_id` (contracts/specs.py); callers of `normalize_for_identity` see exactly
     that function (R.opaque), the real body is proved equal to it below.
-Engine additions made for this file: pyvc/jsonmodel.py (new), externals.py (environ, os.path, json.dumps, ContextVar,
-open/write ghost trace), builtins.py (sum(), dict-literal lookup with a symbolic key, `{k: f(k) for k in m}` exact,
-spec functions map_put/map_del/perm_of, Json hooks), interp.py (set literals, `is` on optionals, Json truthiness),
-verifier.py (`exc_msg` in ensures_exc), values.py (coercion hook into Json).
+  * rotate_one: PRIVATE tiny file-name model (ghost `rfs`), not pyvc/fsmodel.py -- see the section at the end
+Engine additions made for this file (summary in ENGINE_GUIDE.md "Additions made for C16 / C10"):
+pyvc/jsonmodel.py (new), externals.py (environ, os.path, os.remove, Path, json.dumps, ContextVar, open/write ghost
+trace), builtins.py (sum(), dict-literal lookup with a symbolic key, `{k: f(k) for k in m}` exact, spec functions
+map_put/map_del/perm_of/enc_eq, Json hooks, callee raise conditions evaluated in the pre-call state), interp.py (set
+literals, `is` on optionals, Json truthiness, nested forall merged into one quantifier, `define:` cut points),
+verifier.py (`exc_msg` in ensures_exc, `funcs=` callee override, `from . import submodule`, ghost-written names of
+model hooks / modifies), values.py (coercion hook into Json, eta-reduction mk(acc(x)..) -> x for lists/maps).
+
+FINDING kept as failing obligations (rotate_one[backups=1|2]/post-exc:*): when os.replace keeps failing,
+atomic_replace "cleans up the temp file" -- in rotate_logs that "temp" is the live log or a kept generation, which is
+thereby deleted (reproduced natively with a fault-injected os.replace, see the final report).
 """
 from pyvc.verifier import REG as R
 from pyvc.jsonmodel import TJSON
@@ -109,7 +117,7 @@ R.contract(
     axioms=AX_BSUM,
     ensures=[("empty", "len(self._buf) == 0 and self._bytes == 0 and self._seq == 0"),
              ("limit-stored", "self.byte_limit == byte_limit"),
-             ("inv-established", "wf_stager(self)")],
+             ("inv-established", "wf_stager(self) and stager_bounded(self)")],
     raises="none", callee=False,
 )
 
@@ -141,13 +149,18 @@ R.contract(
         ("staged-record", LAST + ".file_path == file_path and " + LAST + ".key == key and " + LAST + ".bytes_estimate == gest "
                           "and seq_eq(" + LAST + ".payload, norm_id(os_basename(file_path), payload))"),
         ("bytes-accounting", "self._bytes == old(self._bytes) + gest and gest >= 2"),
-        ("accepted-only-within-limit", "old(self._bytes) + gest <= self.byte_limit"),
+        # back-pressure only while something is buffered (repo commit 8181b4e): a record is accepted iff it fits
+        # or the buffer is empty
+        ("accepted-only-within-limit-or-into-empty-buffer",
+         "old(self._bytes) + gest <= self.byte_limit or old(len(self._buf)) == 0"),
+        ("memory-bound-preserved", "implies(old(stager_bounded(self)), stager_bounded(self))"),
         ("frame", "self._seq == old(self._seq) and self.byte_limit == old(self.byte_limit)"),
         ("payload-not-mutated", "seq_eq(payload, old(payload))"),
     ],
     raises=["RuntimeError"],
     ensures_exc=[
-        ("backpressure-only-over-limit", "old(self._bytes) + gest > old(self.byte_limit)"),
+        ("backpressure-only-when-buffered-and-over-limit",
+         "old(len(self._buf)) > 0 and old(self._bytes) + gest > old(self.byte_limit)"),
         ("message", "exc_msg == 'LOG_STAGING_BACKPRESSURE'"),
         ("nothing-changed", "seq_eq(self._buf, old(self._buf)) and self._bytes == old(self._bytes) and "
                             "self._seq == old(self._seq) and self.byte_limit == old(self.byte_limit) and "
@@ -164,12 +177,30 @@ R.contract(
     requires=[("wf", "wf_stager(self)")],
     ensures=[
         ("emptied", "len(self._buf) == 0 and self._bytes == 0"),
-        ("inv-preserved", "wf_stager(self)"),
+        ("inv-preserved", "wf_stager(self) and stager_bounded(self)"),
         ("returns-every-staged-record-once", "perm_of(result, old(self._buf))"),
         ("sorted-by-turn-stage-slice-seq-path",
          "forall2(i, j, 0 <= i and i < j and j < len(result), stage_key(result[i]) <= stage_key(result[j]))"),
         ("frame", "self._seq == old(self._seq) and self.byte_limit == old(self.byte_limit)"),
     ],
+    raises="none", callee=False,
+)
+
+# drain-then-retry never raises, for every byte limit: the real drain_sorted followed by the real stage (inlined on
+# the post-state); an escaping exception would be the failed obligation `.../post-call:no-exception:RuntimeError`
+R.contract(
+    STG + "drain_sorted", BOTH, name="LogStager.drain_sorted#then-stage",
+    types={"self": "LogStager", "fp": "str", "key": "LogKey", "payload": REC},
+    returns=SR,
+    axioms=AX_BSUM,
+    requires=[("wf", "wf_stager(self)")],
+    post_setup=["call:self.stage(fp, key, payload)"],
+    ensures=[("retry-after-drain-is-accepted-alone",
+              "len(self._buf) == 1 and self._buf[0].file_path == fp and self._buf[0].key == key and "
+              "self._bytes == self._buf[0].bytes_estimate"),
+             # (the antecedent is an instance of the first bsum axiom; it only puts the trigger term bsum(buf, 0) on the table)
+             ("inv-and-bound-after-retry",
+              "implies(bsum(self._buf, 0) == 0, wf_stager(self)) and stager_bounded(self)")],
     raises="none", callee=False,
 )
 
